@@ -237,6 +237,7 @@ def addHandlerAt (root : Node) (pattern : Str) (id : Nat) (group : Str) (paralle
 
 /-- `Mux.AddListener` -/
 def addListenerAt (root : Node) (pattern : Str) (id : Nat) : Node × Except RegErr Unit :=
+  if !Pattern.isValid pattern then (root, .error .invalidPattern) else
   let (root', r) := fetch (α := Except RegErr Unit) none (fun n _ params _ =>
       match setAndValidateParams n params with
       | .error e => (n, .ok (.error e))
